@@ -122,9 +122,12 @@ def upstream(rng, n, alt_det, hostile=True):
             # out-of-range decays whose geometry is degenerate (distance to the detector 0, infinite or
             # undefined): they are outside [0, 10] km like any other and must give an exactly zero field
             beta = np.array(beta, copy=True)
-            # (for a detector inside the decay range a decay at the detector's own altitude is a decay *at the
-            #  detector*: distance 0, a genuine singularity of the 1/d field, not generated)
-            at_det = alt_det if alt_det > 10.0 else 10.0 + alt_det
+            # decays at exactly the detector's own altitude. For a detector above 10 km they are out of range
+            # (exact zero). For a detector inside the decay range they are in range, and the code's distance
+            # along the track between two equal altitudes is 0 although the decay is metres to a kilometre
+            # away from the detector: the distance scale is inf and the field inf / NaN for about one such
+            # event in four (open known finding radio:decay-at-detector-altitude; bit-exact equality only)
+            at_det = alt_det
             alt[15] = at_det  # decays at the detector's own altitude
             alt[16] = np.inf
             alt[17], beta[17] = -1.0, math.radians(0.5)  # below ground on a grazing track
@@ -155,8 +158,28 @@ def chain(cfg, args, seed=None, stub=None):
     return np.asarray(E), np.asarray(snr)
 
 
+def fixed_witness_decay_at_detector_altitude(ctx):
+    """The recorded witness of the open finding radio:decay-at-detector-altitude, evaluated on every run."""
+    from nuspacesim.config import NssConfig
+
+    cfg = NssConfig()
+    cfg.detector.initial_position.altitude = 5.0
+    args = tuple(np.array([x]) for x in (0.39141849140797885, 5.0, 13.076161419760194, 0.008711678450932677, 13.357083716450731, 1.0))
+    try:
+        with np.errstate(all="ignore"):
+            E, snr = chain(cfg, args, seed=1)
+    except Exception as e:
+        ctx.exception("raises", "radio chain raised on the recorded witness (decay at the detector's altitude)", e, {})
+        return
+    ctx.count("finite", 1)
+    if not (np.all(np.isfinite(E)) and np.all(np.isfinite(snr))):
+        ctx.violation("radio:decay-at-detector-altitude", f"detector 5.0 km: the decay at altitude 5.0 km (beta=0.39141849140797885, lenDec=13.076161419760194, view=0.008711678450932677, path=13.357083716450731), 280 m from the detector, has a non-finite field / SNR = {snr[0]!r}", {"det_alt": 5.0, "altDec": 5.0})
+
+
 def relations(ctx, si, payload):
     rng = ctx.subrng("c20-rel", si)
+    if si == payload.get("witness_shard", -1):
+        fixed_witness_decay_at_detector_altitude(ctx)
     for det in payload["dets"]:
         for tec, band in payload["variants"]:
             n = payload["n"]
@@ -186,7 +209,7 @@ def relations(ctx, si, payload):
             bad = ~np.isfinite(snr) | ~np.all(np.isfinite(E), axis=1)
             if bad.any():
                 i = int(np.flatnonzero(bad)[0])
-                key = "radio:lenDec==0" if l[i] == 0 else "finite"
+                key = "radio:lenDec==0" if l[i] == 0 else ("radio:decay-at-detector-altitude" if (alt[i] == det and np.all(alt[bad] == det)) else "finite")
                 ctx.violation(key, f"detector {det} km: event {i} (beta={beta[i]!r}, altDec={alt[i]!r}, lenDec={l[i]!r}, view={theta[i]!r}, path={L[i]!r}) has a non-finite field / SNR = {snr[i]!r} ({int(bad.sum())} events)", dict(wit, event=i, lenDec=float(l[i]), altDec=float(alt[i])))
             # ---- range
             ctx.count("range", int((~inr).sum()))
@@ -418,7 +441,7 @@ def run(ctx):
     dets = [33.0, 89.0, 91.0, 525.0, 36000.0, 5.0, 8.0]  # incl. detectors inside the [0, 10] km decay range (closest approach can be in range)
     variants = [(10.0, (30.0, 300.0)), (7.0, (30.0, 300.0)), (50.0, (300.0, 1000.0)), (10.0, (50.0, 200.0)), (-1.0, (30.0, 300.0)), (None, (30.0, 80.0)), (150.0, (200.0, 1200.0))]
     for d in dets:
-        P.append({"kind": "rel", "dets": [d], "variants": variants if T else (variants[::2] if d != 525.0 else variants), "n": 300 if not T else 2500})
+        P.append({"kind": "rel", "witness_shard": len(P) if d == 5.0 else -1, "dets": [d], "variants": variants if T else (variants[::2] if d != 525.0 else variants), "n": 300 if not T else 2500})
     P.append({"kind": "big", "n": 20000 if not T else 70001})
     P.append({"kind": "history"})
     fb = [(0, 300), (30, 300), (0, 1650), (300, 1000), (10, 20), (1640, 1650)] + ([(0, 10), (50, 200), (1000, 1650), (0, 50)] if T else [])
